@@ -647,13 +647,13 @@ fn bgzf_wrap(rng: &mut Rng, mut p: Vec<u8>) -> Vec<u8> {
 
 pub fn generate(rng: &mut Rng, thorough: bool, w: &mut CaseWriter) {
     let raw_caps = [0usize, 0, 0, 1, 2, 3, 5, 7, 16, 64, 4096];
-    for _ in 0..(if thorough { 1200 } else { 100 }) {
+    for _ in 0..(if thorough { 300 } else { 100 }) {
         let f = gen_tabix_bgzf(rng);
         let wi = rng.chance(1, 3);
         let script = random_script(rng, f.len(), wi);
         w.push("tbir", vec![hex(&f), rng.pick(&raw_caps).to_string(), fmt_script(&script)]);
     }
-    for _ in 0..(if thorough { 1200 } else { 100 }) {
+    for _ in 0..(if thorough { 300 } else { 100 }) {
         let f = gen_csi_bgzf(rng);
         let wi = rng.chance(1, 3);
         let script = random_script(rng, f.len(), wi);
